@@ -17,6 +17,11 @@ func (p callTemplateExpressionParser) Parse(pi *parse.Input) (n Node, ok bool, e
 		return
 	}
 
+	// Any further padding is not part of the expression.
+	if _, _, err = parse.OptionalWhitespace.Parse(pi); err != nil {
+		return
+	}
+
 	// Once we have a prefix, we must have an expression that returns a template.
 	var r CallTemplateExpression
 	if r.Expression, err = parseGo("call template expression", pi, goexpression.Expression); err != nil {
